@@ -64,6 +64,15 @@ RunsClean ==
       LET s == RunToEnd(Prog(Tree), EnvOf(asg), DefaultBudget, {})
       IN NoUnderflow(s) /\ CleanExit(s) /\ MemoryNonNegative(s) /\ s.status # "fuel"
 
+(* C05 "oversize": every expression that contains the long literal, with what *)
+(* the small-scope compiler as designed does with it (ovf: rejected because a *)
+(* jump offset does not fit) and the reference outcomes of its runs.  The    *)
+(* harness inflates the literal so that the same jumps overflow for real.    *)
+RECURSIVE HasBig(_)
+HasBig(t) == t = BigArr \/ \E i \in 1..Len(Kids(t)) : HasBig(Kids(t)[i])
+OvCase == [src |-> Src(Tree), ty |-> TreeTy, n |-> n, ovf |-> CompileRejects(Tree, Mode), runs |-> Runs(Tree)]
+EmitOv == (Complete /\ EmitMode = "ovcases" /\ HasBig(Tree)) => PrintT(ToJson(OvCase))
+
 ProgCase == [src |-> Src(Tree), mode |-> Mode, prog |-> Prog(Tree)]
 EmitProg == Complete => (EmitMode = "progs" => PrintT(ToJson(ProgCase)))
 =============================================================================
